@@ -84,6 +84,9 @@ def _case(draw):
         st.tuples(st.just("set"), st.integers(0, 3), val),
         st.tuples(st.just("same"), st.integers(0, 3)),
         st.tuples(st.just("update"), st.lists(st.integers(0, 3), min_size=2, max_size=3, unique=True)),
+        # an update whose last item is rejected (out of bounds / unknown name) after the others were applied
+        st.tuples(st.just("update_rejected"), st.lists(st.integers(0, 3), min_size=2, max_size=3, unique=True),
+                  st.sampled_from(["bad_value", "unknown_name"])),
         st.tuples(st.just("batch"), st.lists(st.one_of(st.tuples(st.just("v"), st.integers(0, 3)),
                                                       st.tuples(st.just("b"), st.integers(0, 1))), min_size=1, max_size=4)),
         st.tuples(st.just("slot"), st.integers(0, 1)),
@@ -261,6 +264,31 @@ def execute(case):
                     changed.add((p, "value"))
                 vals[p] = kw[p]
             inst.param.update(**kw)
+        elif k == "update_rejected":
+            kw = {}
+            for pi in op[1][:-1]:
+                p = PARAMS[pi]
+                kw[p] = nxt() % 90
+                if kw[p] != vals[p]:
+                    changed.add((p, "value"))
+                vals[p] = kw[p]
+            if op[2] == "bad_value":
+                kw[PARAMS[op[1][-1]]] = 5000          # outside the bounds (0, 100)
+            else:
+                kw["no_such_parameter"] = 1
+            try:
+                inst.param.update(**kw)
+            except (ValueError, TypeError):
+                pass
+            else:
+                res.fail("C06.update_not_rejected", f"{tag}: update({kw!r}) did not raise")
+            if any(getattr(inst, p) != v for p, v in vals.items()):
+                # which of the earlier items were applied before the rejection is C05's subject: no claim for this op
+                for p in PARAMS:
+                    vals[p] = getattr(inst, p)
+                res.dontcare += 1
+                continue
+            marks.add("update_with_rejected_item")
         elif k == "batch":
             with batch_call_watchers(inst):
                 for what, pi in op[1]:
